@@ -1,6 +1,6 @@
 (* C18 — timestamped stream aggregates never go back in time and are carried forward. *)
 From stdpp Require Import gmap.
-From DS Require Import Base Decimal StreamValue Aggregators Outcome OutcomeProofs StepTheorems NvHistory.
+From DS Require Import Base Decimal StreamValue Aggregators Outcome OutcomeProofs StepTheorems HistoryProofs HistoryLifts NvHistory.
 Open Scope Z_scope.
 
 (* while the (stream, aggregator) pair stays referenced, a timestamped aggregate is kept, replaced by a strictly
@@ -28,6 +28,16 @@ Theorem C18_unreferenced_dropped : forall h cf seq prev aos next p v,
   o_aggs next !! p = Some v -> p ∈ referenced_pairs (o_defs next).
 Proof. exact unreferenced_dropped. Qed.
 Print Assumptions C18_unreferenced_dropped.
+
+(* over ANY history: while the pair stays referenced and its aggregate stays timestamped, the observed-at time at the end
+   of every later round is at least the one the history started from — whatever is observed in between *)
+Theorem C18_observed_at_nondecreasing : forall h cf (es : list event) (e0 : event) p t0,
+  Forall (valid_event h cf) (e0 :: es) -> linked (e0 :: es) ->
+  tsv_time (ev_prev e0) p = Some t0 ->
+  (forall e, e ∈ (e0 :: es) -> p ∈ referenced_pairs (o_defs (ev_next e)) /\ exists t, tsv_time (ev_next e) p = Some t) ->
+  forall e t, e ∈ (e0 :: es) -> tsv_time (ev_next e) p = Some t -> t0 <= t.
+Proof. exact observed_at_nondecreasing. Qed.
+Print Assumptions C18_observed_at_nondecreasing.
 
 (* non-vacuity: observed-at 11s in round 3, observers report 10s in round 4: the aggregate stays at 11s *)
 Example C18_nv :
